@@ -10,7 +10,7 @@ int main(int argc, char** argv)
 {
 	Ctx c = parseArgs(argc, argv);
 	Rng rng(c.seed * 0x1000 + 0x205);
-	Budget b = c.thorough ? Budget{ 60, 200, 260 } : Budget{ 8, 150, 200 };
+	Budget b = c.thorough ? Budget{ 1000, 220, 300 } : Budget{ 40, 200, 260 };
 #if !defined(C05_PART) || C05_PART == 1
 	runConfig<VecAdapter<Vec<std::string>>>(c, rng, "v0_string", "", b);
 	runConfig<VecAdapter<VecIC<1, std::string>>>(c, rng, "v1_string", "", b);
